@@ -40,6 +40,51 @@ check("C33", "E2 enum", "exploration",
       "20 non-terminating shapes (every loop kind, loops in methods/closures/generators/do-finally/do-catch, recursion, tail recursion) are compiled with abort checks and run with an aborter whose context closes at exactly the k-th poll, for every k in 1..40 (thorough 1..200); 7 blocking shapes (channel pop/push/for-in/select) are cancelled at poll k and by another goroutine while blocked. The run must end with ExecutionAbortedError at that poll; running on (watchdog), hanging or panicking is a violation.",
       "cancellation time is discretised to abort polls; a hang is decided by a 40 s watchdog and a 120 s solo re-run; await of a never-settling promise is not in the space (no terminating driver without timers)")
 
+check("C07", "E2 enum", "exploration",
+      "exhaustive enumeration of all 8-bit operand pairs and boundary pairs of wider types x every operator x evaluation paths against native Go arithmetic",
+      "All 65 536 Int8/UInt8 pairs per operator, all pairs of 28 (thorough 40) boundary patterns for the 16/32/64-bit types, every shift operator with every AnyInt right-operand type and amount class, and all pairs of 39 boundary floats per float type are evaluated through value.XVal, the native methods and literal/typed/method forms on the VM and compared bit-exactly with Go's sized arithmetic; an accepted operand raising TypeError, a Go panic or a non-terminating ** is a violation.",
+      "16/32/64-bit pairs are boundary sets; float % and ** are compared with math.Mod/math.Pow; the ** termination probe uses a CPU-time limit in a child process")
+
+check("C08", "E2 enum", "exploration",
+      "bounded-exhaustive differential enumeration: every operator/method of 22 value classes x operand kinds x values compiled in up to 7 evaluation forms whose results must agree",
+      "The operation list is derived from elk's own type environment; each (operation, operand kinds) tuple is compiled as constant-folded literal, typed opcode, union-typed generic opcode, interface-typed dynamic call, supertype call and explicit method call (forms confirmed distinct by disassembly) and run on the full product of 4-10 values per kind; all forms must print the same value or raise the same error class.",
+      "error messages are not compared; methods with closure/rest parameters and HashMap/HashSet/Regex receivers are outside the space")
+
+check("C15", "E2 enum", "exploration",
+      "bounded-exhaustive differential enumeration: function bodies x arguments x wrappers {plain, generator, async, nested async} x pool sizes; generator yield sequences against a reference",
+      "23 body templates x arguments 0..3 are compiled as plain method, generator, async+await_sync and async awaited from async, the async forms on pools (1,2),(2,2),(4,256); every wrapper must print the same trace and produce the same value or thrown value as the plain method; 5 generator bodies with yields in loops/do-finally are compared with a reference sequence.",
+      "the any-interleaving clause is explored exhaustively by C16's scenarios, not here; bodies come from a fixed template family")
+
+check("C18", "E2 enum", "exploration",
+      "exhaustive enumeration of all ordered pairs (and all numeric triples) of a 175-250 value set over 40 classes, checking the equality/hash/order laws on the implementation's own answers",
+      "All ordered pairs of 175 (thorough 250) values of every built-in kind, each also against an independently constructed copy, are checked for == symmetry/reflexivity and a == b => equal hash; all pairs of non-NaN numbers for mutual consistency of < <= > >= <=> =~; all ordered numeric triples for transitivity of <, <= and =~; a VM pass repeats the numeric pairs with statically typed operands.",
+      "ordering laws only for numbers, as the statement says; exact arithmetic is used only to name the deviating operator")
+
+check("C19", "E2 enum", "exploration",
+      "bounded-exhaustive enumeration of values of every literal-expressible type; inspect -> evaluate -> vm.Equal round trip; integer literals and String#to_int against math/big",
+      "All chars U+0000-02FF plus boundaries, all strings and symbols of <=2 (thorough 3) units over 49 units including invalid UTF-8, 64 floats x 4 float types, fixed-width boundaries, regexes x 64 flag sets, 8 range kinds x 9 endpoint types, collections to depth 2 are inspected, evaluated by the real checker+VM and compared with vm.Equal; integer literals in bases 2-16 with every suffix and ~2.8k String#to_int cases are compared with math/big.",
+      "values are built through the Go API; Regex compared by source+flags (no structural == exists); mutable collections are not used as set elements/map keys")
+
+check("C20", "E2 enum", "exploration",
+      "exhaustive enumeration of all strings of <=3 elements over a 14-element alphabet (mixed ASCII, multi-byte, combining, invalid bytes) x indices/widths against utf8/uniseg models",
+      "Every string of <=3 elements (thorough: 19-element alphabet and 4-element strings) is run through length/byte_count/grapheme_count, the three iterators, char_at/byte_at/grapheme_at for indices -5..5, rjust/ljust for widths 0..6, *, case mapping, + - <=> and comparisons, via the Go API and via Elk calls, against a Go model (unicode/utf8, an independent UAX#29 segmenter cross-checked with uniseg).",
+      "case mapping of invalid bytes and the order of invalid strings are only checked for internal consistency")
+
+check("C21", "E2 enum", "exploration",
+      "bounded-exhaustive enumeration of regex syntax trees (<=4, thorough <=5 nodes) x flag sets x all subjects of length <=3 against a reference matcher written over the Elk regex AST",
+      "20 580 (thorough 234 465) distinct pattern texts, scoped-flag, class and composition families x 16 (thorough 64) flag sets x 886 subject strings: value.CompileRegex+MatchesString must accept exactly the subjects the reference matcher (Elk semantics, extended mode resolved on the text) accepts, or report a compile error; the reference is self-validated against Go regexp where the syntaxes coincide.",
+      "\\b, named classes and \\Q..\\E are outside the enumerated space; U (ungreedy) is unobservable through a boolean match")
+
+check("C22", "E2 enum", "exploration",
+      "exhaustive enumeration of ~1130 boundary dates x spans, all ordered date pairs for diff, format round trips, against an independent civil-calendar model",
+      "Dates over 21 boundary years x all months x days {1,28,29,30,31}, day/month/year spans up to the full range, all 1.28 M ordered pairs for a + (b - a) == b, to_string and 17 strftime formats round trips, DateTime with 3 zone offsets, span to_string round trips and a TZ child process for DST; oracle: Hinnant's days_from_civil in int64; out-of-range must raise, never wrap.",
+      "month overflow clamping is accepted either way where the headers are silent; %c %+ %Z %s are not tested")
+
+check("C23", "E2 enum", "exploration",
+      "bounded-exhaustive enumeration of 8 range kinds x bound families x probes and of 11 iterable kinds x element lists (len <=3, thorough <=5) x 27 operations x arguments against a Go slice model",
+      "Range contains/iteration in 5 forms for Int, Float, word-straddling Int, Char and fixed-width bounds; every list over {1,2,3,-1} as ArrayList, tuple, set, map, record, iterators, generator and closed channel x the 27 Std::Iterable operations with n in {-1,0,1,2,5}, 4 predicates, 4 probes; results must equal the same operation on the Go slice (multisets for hash collections) and undocumented edge cases must equal ArrayList's behaviour.",
+      "Float-range iteration and halves on Int ranges are rejected by the checker and not probed")
+
 NOT_YET = "check not built yet in this round (planned, see DESIGN.md section 5)"
 NA = {}
 
